@@ -405,6 +405,9 @@ func (d *Dynamic) ensureScroll() {
 	}
 	d.scroll.top = d.cursor
 	d.scroll.offset = 0
+	// A scroll still pending from before the cursor moved would scroll the
+	// cursored widget away again
+	d.scroll.pending = 0
 }
 
 var _ vxfw.Widget = &Dynamic{}
